@@ -1,5 +1,10 @@
 # property id -> claim text (filled as checks are admitted; everything else is listed under NA with the reason)
 CLAIMS = {
+ 'C10': {'technique': 'static analysis on forced template instantiations: single-RMW shape check, guard dominance of the free sites, per-method pairing obligations on the CFG, lock sets for the pool',
+         'text': 'Decides the release-exactly-once structure: the last-reference decision is the result of one atomic read-modify-write; delete/RecycleObject only on the true edge of that decision (and of the '
+                 'counting bit and allowDelete), mutually exclusive; every store into ConstRef::_item is bracketed by the matching count operation (per-method obligations, constructors included, move/swap '
+                 'count-neutral); the pool resets and un-manages an object before it re-enters the free list, touches slab lists only under its mutex and deletes slabs outside it. Interleavings and ABA are not explored.',
+         'note': 'Judged on ConstRef<ByteBuffer> and ObjectPool<dummy pooled type> instantiated by /verif/engine/instantiate.cpp; the templates\' other instantiations share the same source.'},
  'C11': {'technique': 'static analysis: must-/may-hold lock sets (forward data flow over the CFG), ordering/pairing of enqueue, signal, drain, dequeue, block and re-entry, predicate-wait shape check',
          'text': 'Decides the structure that rules out lost wake-ups by construction: queue accesses under the queue\'s own lock; enqueue and first-Message decision in one critical section with the signal after '
                  'it and to the right side; the receiver drains before it dequeues and never between dequeue and block, blocks only after a dequeue attempt and without a lock, and re-enters to dequeue after '
@@ -60,6 +65,6 @@ CLAIMS = {
          'note': 'Assumes const methods with by-value/const-ref parameters do not change what loop tests read; logging and destructor hubs are cut from the recursion graph.'},
 }
 _PENDING = 'check under construction in this session (see DESIGN.md section 4); not claimed until its rule is admitted'
-NA = {pid: _PENDING for pid in ['C01','C03','C08','C10','C14','C15','C16','C17']}
+NA = {pid: _PENDING for pid in ['C01','C03','C08','C14','C15','C16','C17']}
 NA['C09'] = ('refinement of an ideal ordered map over operation histories with live iterators: its mechanisms are co-located with the mutations they protect inside single template functions; '
              'no sound structural necessary condition was found that is not either compiler-enforced or a frozen-fragment match (DESIGN.md section 4, C09)')
